@@ -5,7 +5,8 @@
    pipeline (with a dead gate after Prune) computes the graph's meaning on
    every input (vm_compute). *)
 From Coq Require Import List Bool Arith Lia.
-From Mpc Require Import Circuit.Circuit Circuit.Passes Circuit.PassesProof Circuit.PassesBFS.
+From Mpc Require Import Circuit.Circuit Circuit.Passes Circuit.PassesProof Circuit.PassesBFS
+  Circuit.PassesIO Circuit.PassesInv.
 Import ListNotations.
 
 (* a checker for [wf_topo] *)
@@ -173,3 +174,39 @@ Example ex_pipeline_all_configs :
       lb_eqb (eval_plain c x) (graph_eval ex_graph x) && negb (Nat.eqb (length (eval_plain c x)) 0))
       [(false, Yao); (false, GMW); (true, Yao); (true, GMW)]) all_inputs2 = true.
 Proof. vm_compute. reflexivity. Qed.
+
+(* the example also satisfies the remaining builder bookkeeping [wfx] *)
+Definition ex_rank (w : nat) : nat := nth w [0; 0; 2; 1; 2; 3; 4; 4; 1; 5; 5] 0.
+
+Ltac in_order H := vm_compute in H; repeat (destruct H as [<-|H]; [|]); [..|destruct H].
+
+Lemma ex_isconst k : isconst ex_graph k -> k = 2 \/ k = 4.
+Proof. intros [H|H]; vm_compute in H; inversion H; auto. Qed.
+
+Lemma ex_wfx : wfx ex_graph.
+Proof.
+  constructor.
+  - vm_compute. repeat constructor; simpl; intuition; discriminate.
+  - intros c w H. vm_compute in H.
+    repeat (destruct H as [<-|H];
+            [do 11 (destruct w as [|w]; [vm_compute; lia|]); vm_compute; lia|]). destruct H.
+  - intros w. do 11 (destruct w as [|w]; [vm_compute; lia|]). vm_compute. lia.
+  - exists ex_rank. split.
+    + intros c H. vm_compute in H.
+      repeat (destruct H as [<-|H]; [intros w Hw; vm_compute in Hw;
+              repeat (destruct Hw as [<-|Hw]; [vm_compute; lia|]); destruct Hw|]). destruct H.
+    + intros k k' H1 H2. destruct (ex_isconst k H1) as [-> | ->], (ex_isconst k' H2) as [-> | ->]; reflexivity.
+  - intros h H. vm_compute in H. repeat (destruct H as [<-|H]; [reflexivity|]). destruct H.
+  - intros w p H. do 11 (destruct w as [|w]; [vm_compute in H; try discriminate; inversion H; subst; vm_compute; auto 12|]).
+    vm_compute in H. discriminate.
+  - intros c H. vm_compute in H.
+    repeat (destruct H as [<-|H]; [split; [vm_compute; lia|intros w Hw; vm_compute in Hw;
+            repeat (destruct Hw as [<-|Hw]; [vm_compute; lia|]); destruct Hw]|]). destruct H.
+  - intros w H. vm_compute in H. repeat (destruct H as [<-|H]; [vm_compute; lia|]). destruct H.
+  - intros o H. vm_compute in H. repeat (destruct H as [<-|H]; [vm_compute; lia|]). destruct H.
+  - intros k H. destruct (ex_isconst k H) as [-> | ->]; vm_compute; split; auto; lia.
+Qed.
+
+Example ex_links_exact :
+  links_exact (const_propagate ex_graph) (gorder (const_propagate ex_graph)).
+Proof. exact (links_exact_derived _ ex_wfg ex_wfb ex_wfx). Qed.
